@@ -35,6 +35,7 @@ type Op struct {
 type Case struct {
 	RefCount bool     `json:"refcount"`
 	Delay    bool     `json:"delay"`
+	NegDelay bool     `json:"negdelay,omitempty"` // the delay is passed as a negative duration (documented: its magnitude is used)
 	Behs     []string `json:"behs"`
 	Backoff  []int    `json:"backoff"`
 	Full     bool     `json:"full"`
@@ -53,6 +54,7 @@ func genCase(kind string) func(t *rapid.T) Case {
 		var c Case
 		c.NKeys = rapid.IntRange(1, ev.Pick(5, 6)).Draw(t, "nkeys")
 		c.Delay = rapid.Bool().Draw(t, "delay")
+		c.NegDelay = c.Delay && rapid.IntRange(0, 3).Draw(t, "negdelay") == 0
 		var behs, kinds []string
 		switch kind {
 		case "C06":
@@ -167,11 +169,12 @@ func run(t *testing.T, cs Case) *ev.Verdict {
 	v := &ev.Verdict{}
 	canon, _ := json.Marshal(struct {
 		R, D, F bool
+		ND      bool
 		B       []string
 		Bo      []int
 		N       int
 		Ops     []Op
-	}{cs.RefCount, cs.Delay, cs.Full, cs.Behs, cs.Backoff, cs.NKeys, cs.Ops})
+	}{cs.RefCount, cs.Delay, cs.Full, cs.NegDelay, cs.Behs, cs.Backoff, cs.NKeys, cs.Ops})
 	v.Canon = string(canon)
 	c, berr := sched.Run(t, parkPoints, cs.Sched, func(c *sched.Ctl) { body(c, cs, v) })
 	v.Trace = c.Trace()
@@ -314,7 +317,11 @@ func body(c *sched.Ctl, cs Case, v *ev.Verdict) {
 	}
 	var opts []keyed.Option[int, int]
 	if cs.Delay {
-		opts = append(opts, keyed.WithReleaseDelay[int, int](delayMs*time.Millisecond))
+		d := delayMs * time.Millisecond
+		if cs.NegDelay {
+			d = -d
+		}
+		opts = append(opts, keyed.WithReleaseDelay[int, int](d))
 	}
 	if m.bo != nil {
 		opts = append(opts, keyed.WithBackoff[int, int](func(k int) cbackoff.BackOff {
